@@ -109,7 +109,7 @@ def item_src(it):
     k = it["k"]
     if k == "bounds": return "bounds(%s)" % ", ".join("%s: ::scale_info::TypeInfo + 'static" % p for p in it["ps"])
     if k == "skip_type_params": return "skip_type_params(%s)" % ", ".join(it["ps"])
-    if k == "capture_docs": return 'capture_docs = "%s"' % ("always" if it["valid"] else "sometimes")
+    if k == "capture_docs": return 'capture_docs = "%s"' % it["val"]
     if k == "crate": return "crate = ::scale_info"
     if k == "replace_segment": return 'replace_segment("a", "b")'
     if k == "unknown": return "frobnicate"
